@@ -204,6 +204,22 @@ def canon(v, info: SpecInfo | None = None):
     return ("?", name)
 
 
+def safe_canon(v, info=None):
+    """canon() for values that may be absurdly deep (a broken depth limit): the marker
+    ('?', 'too-deep-to-traverse') instead of a RecursionError in the harness."""
+    try:
+        return canon(v, info)
+    except RecursionError:
+        return ("?", "too-deep-to-traverse")
+
+
+def safe_depth(v, info) -> int:
+    try:
+        return depth(v, info)
+    except RecursionError:
+        return 10**6
+
+
 def canon_str(c) -> str:
     if isinstance(c, tuple):
         if c and c[0] in ("int", "float", "str", "bool") and len(c) == 2:
